@@ -111,6 +111,7 @@ func productCases(tier string) []scen.Case {
 		}
 		m := method("Op"+id, verb, sub(route), pfx)
 		m.Hidden, m.Deprecated = hidden, deprecated
+		m.HiddenForm = n / 2
 		sibRoute := "/sib"
 		if family == "B" {
 			sibRoute = "/" + id + "/sib"
@@ -247,6 +248,15 @@ func mutators() []mutator {
 			c := scen.Controller{Name: "D" + id, Pkg: id + "/p/d", Prefix: scen.S("/" + id + "/d"), Tag: scen.S("TD" + id)}
 			c.Methods = []scen.Method{method("D"+id+"One", "GET", "/one", "/"+id+"/d")}
 			u.Controllers = append(u.Controllers, c)
+		}},
+		{"A.literal-route-declared-before-an-overlapping-parameter-route", func(u *scen.Unit, id string) {
+			// GET /a/zone/me (method Zeta, declared first) and GET /a/zone/{id} (method Alpha): an accepted project
+			// (route-conflict warning); a request for the literal path belongs to the literal route on every engine
+			c := &u.Controllers[0]
+			pfx := *c.Prefix
+			zeta := method("Zeta"+id, "GET", "/zone/me", pfx)
+			alpha := method("Alpha"+id, "GET", "/zone/{id}", pfx)
+			c.Methods = append([]scen.Method{zeta, alpha}, c.Methods...)
 		}},
 		{"B.no-leading-slash-route", func(u *scen.Unit, id string) { u.Controllers[1].Methods[0].Route = scen.S("one") }},
 	}
